@@ -344,7 +344,7 @@ def main(run, shard=(0, 1)) -> None:
             inp = None
             seq_rng = sub_rng(run.seed, 'seqs', wi)
             all_pairs = thorough and variant in (0, 3)
-            seqs = sequences(seq_rng, 60 if thorough else 14, 40 if thorough else 8, all_pairs)
+            seqs = sequences(seq_rng, 60 if thorough else 12, 40 if thorough else 6, all_pairs)
             todo = []
             for seq in [None] + seqs:
                 ci += 1
